@@ -220,6 +220,16 @@ class Scratch:
     def __exit__(self, *exc):
         if self.dir and os.path.isdir(self.dir) and not os.environ.get("VERIF_KEEP_SCRATCH"):
             shutil.rmtree(self.dir, ignore_errors=True)
+        # disk hygiene: every scratch copy leaves ~0.1-1 GB of goto binaries under the shared Kani target directory (the
+        # directory name is a hash of the scratch path); drop those older than 3 hours (no check runs that long)
+        try:
+            import glob
+            now = time.time()
+            for d in glob.glob(os.path.join(KANI_TARGET, "kani", "*", "debug", "build", "blots-core", "*")):
+                if now - os.path.getmtime(d) > 3 * 3600:
+                    shutil.rmtree(d, ignore_errors=True)
+        except Exception:
+            pass
         return False
 
     def src_path(self, rel):
